@@ -22,6 +22,11 @@ def handle (opname : String) (a : Args) : Option String :=
         | 0 => PB.looseMajority ls | 1 => PB.looseMinority ls
         | 2 => PB.strictMajority ls | _ => PB.strictMinority ls
       pure (ok (fmtPBCs cs))) a
+  | "linF" => run (do
+      -- a checked builder call on a formula that already has `nv` variables: new variable count + clauses
+      let nv ← nat; let o ← op; let k ← int; let ls ← ints
+      if ls.contains 0 then pure (err .valueError)
+      else pure (ok (toString (ls.foldl (fun m l => max m l.natAbs) nv) ++ " " ++ fmtClauses (Linear.add ls o k)))) a
   | "both" => run (do
       let o ← op; let k ← int; let ls ← ints
       pure (ok (fmtClauses (Linear.add ls o k) ++ " || " ++ fmtPBCs (PB.add ls o k)))) a
